@@ -230,8 +230,11 @@ Qed.
 Lemma pwrite_inside (data b : bytes) off : (off <= length data)%nat ->
   pwrite data off b = firstn off data ++ b ++ skipn (off + length b) data.
 Proof.
-  intros H. unfold pwrite. replace (off - length data)%nat with 0%nat by lia.
-  simpl. now rewrite app_nil_r.
+  intros H. unfold pwrite. destruct b as [|x b].
+  - (* a zero-length write inside the object: both sides are [data] *)
+    cbn [app length]. rewrite Nat.add_0_r. now rewrite firstn_skipn.
+  - replace (off - length data)%nat with 0%nat by lia.
+    cbn [zeros]. now rewrite app_nil_r.
 Qed.
 
 (* the re-assembly: prefix ++ written bytes, the old tail still to be appended by the commit *)
@@ -326,7 +329,7 @@ Proof. destruct fuel; simpl; now rewrite Z.ltb_irrefl. Qed.
 Lemma truncate_ok bkt fuel (objs : gstore) r (data : bytes) n :
   rvalid bkt r -> content objs r data -> 0 <= n <= zlen data ->
   exists objs' r',
-    res_truncate bkt fuel objs r n = (objs', r', TOk) /\
+    res_truncate bkt fuel objs r n = (objs', r', TrOk) /\
     content objs' r' (ptrunc data (Z.to_nat n)) /\ rvalid bkt r' /\
     frame (r_path r) objs objs' /\ r_path r' = r_path r.
 Proof.
